@@ -24,6 +24,7 @@ func drawValidate(t *rapid.T) sim.ChainCase {
 	g := sim.GenChain(t, sim.GenOpts{
 		Net:       sim.NetOpts{MaxForkHeight: rapid.SampledFrom([]int{4, 10, 20}).Draw(t, "forkSpan"), V2Only: rapid.IntRange(0, 2).Draw(t, "v2only") == 0},
 		MinBlocks: 6, MaxBlocks: 26, Reorgs: false, Profile: sim.Profile{Contracts: 2, MaxTxns: 5},
+		HugeFiles: rapid.IntRange(0, 2).Draw(t, "hugeFiles") == 0, // contracts over virtual files of up to 2^64-1 bytes: sizes and leaf counts at the edge of every width
 		BeforeApply: func(g *sim.Gen, honest types.Block, bs consensus.V1BlockSupplement) {
 			if len(honest.Transactions)+len(honest.V2Transactions()) == 0 {
 				return
